@@ -28,6 +28,7 @@ K04 = [
     Skeleton("i05_parameter", {"main.py": "def fun({0}, {1}=2):\n    return {0} + {1}\n{2} = 1\nprint(fun({2}))\nprint(fun({2}, 3))\n"}),
     Skeleton("i06_multi_statement_body", {"main.py": "def {0}({1}):\n    {2} = {1} * 2\n    if {2} > 2:\n        {2} = 0\n    return {2}\n{3} = {0}(1)\n{4} = {0}(2)\nprint({3}, {4})\n"}),
     Skeleton("i07_nested_call_args", {"main.py": "def {0}({1}, {2}):\n    return {1} - {2}\n{3} = 1\n{4} = 2\nprint({0}({0}({3}, {4}), {2}={3}))\n"}),
+    Skeleton("i09_variable_parenthesised", {"main.py": "def fun({0}):\n    {1} = ({0} + 1)\n    {2} = [{1} * 2, {0}]\n    return {2} + [{1}]\nprint(fun(1))\n"}),
     Skeleton("i08_method_dotted_receiver", {"main.py": "class Inner:\n    def __init__(self):\n        self.val = 3\n    def {0}(self, {1}, {2}=1):\n        return [self.val, {1}, {2}]\nclass Holder:\n    def __init__(self):\n        self.inner = Inner()\n{3} = Holder()\nprint({3}.inner.{0}(4), {3}.inner.{0}(5, {2}=6))\n"}),
 ]
 
@@ -35,11 +36,12 @@ K04 = [
 def instances(tier):
     out = []
     for k, sk in enumerate(K04):
-        if tier == "quick" and 4 <= k < 7:
+        if tier == "quick" and sk.name in ("i05_parameter", "i06_multi_statement_body", "i07_nested_call_args"):
             continue
         nocc = sum(len(re.findall(r"\{\d+\}", t)) for t in sk.files.values())
         for q in range(nocc):
-            out.append(("inline.%s.q%02d" % (sk.name, q), dict(k=k, q=q)))
+            for mode in range(3):  # remove+all occurrences / keep+all / keep+only the current one
+                out.append(("inline.%s.q%02d.m%d" % (sk.name, q, mode), dict(k=k, q=q, mode=mode)))
     return out
 
 
@@ -56,7 +58,7 @@ def make_run(p):
     def build_op(sk_, names, files, cf):
         occs = occurrences_of_slots(sk, names)
         path, slot, off = occs[p["q"]]
-        mode = choose("mode", 3)  # remove+all occurrences / keep+all / keep+only the current one
+        mode = p["mode"]
         remove = mode == 0
         only_current = mode == 2
         return dict(api="inline", path=path, offset=off, remove=remove, only_current=only_current)
